@@ -103,10 +103,7 @@ def make_resolver(type_inference, tables, tree_params):
                     res = tables.bin[(op, hl, hr)]
                     if res == 'TypeError':
                         continue
-                    if res == 'tuple':
-                        out.add(l + r if (op == '+' and isinstance(l, tuple) and isinstance(r, tuple)) else tuple)
-                    else:
-                        out.add(PYT[res])
+                    out.add(PYT[res])         # sequences: the bare constructor (finite lattice)
             return out or None
 
         def res_compare(self, ns, types_ns, node, left, right):
